@@ -17,7 +17,8 @@ every reply is `replyWith` of that session, i.e. a function of the CURRENT snaps
 Output: what a client decodes at version v, in the same text format.
 `--monitor`: every op line is followed by a line `> <implementation output>`; the driver
 evaluates the property predicates of KafVerif.Props.C28 (`onlyProxy`, `expectedShapes`,
-`namesNobody`) on the IMPLEMENTATION's reply and prints `ok` or `violation <which>`.
+`namesNobody`) on the IMPLEMENTATION's reply and prints `ok` or `violation <which>` (the op line
+itself is answered with the model's output, so one run serves correspondence and monitor).
 -/
 open KafVerif KafVerif.ProxyMetadata
 
@@ -214,8 +215,8 @@ def monitorStep (s : St) (ws : List String) : St × String :=
       | _, _ => "violation unexpected-reply-kind"
     ({ s with pending := [] }, res)
   | _ =>
-    let (s', _) := modelStep s ws
-    ({ s' with pending := ws }, "-")
+    let (s', out) := modelStep s ws
+    ({ s' with pending := ws }, out)
 
 def main (args : List String) : IO Unit :=
   if args.contains "--monitor" then runLines ({} : St) monitorStep
